@@ -49,7 +49,7 @@ func c07Scens(tier string) []msScen {
 	var out []msScen
 	bound, nreq := 2, 2
 	if tier == "thorough" {
-		bound, nreq = 3, 3
+		nreq = 3 // up to three pending requests, all scenarios the quick tier thins out, deeper bounds for 0-1 requests
 	}
 	type base struct {
 		cfg   muxCfg
@@ -97,8 +97,8 @@ func c07Scens(tier string) []msScen {
 					bd := bound
 					if len(reqs) <= 1 {
 						bd = bound + 1
-						if writes == 0 && tier == "thorough" {
-							bd = 2 * bound
+						if tier == "thorough" {
+							bd = bound + 2
 						}
 						if len(reqs) == 0 {
 							bd = -1
